@@ -532,19 +532,23 @@ theorem allLoop_sim {rec : P} {mC : Mode} (h : Good rec mC) (hp : Pres rec) (o :
           rw [hF] at this
           simp only [clean0_mode] at this
           rw [this]; rfl
-        have := handleError_ff c hm x.toErr false
-        cases hh : c.handleError x.toErr with
+        have := handleError_ff c hm (asParseError x).toErr false
+        cases hh : c.handleError (asParseError x).toErr with
         | mk c2 r =>
           rw [hh] at this
           simp only at this
           subst this
           exact ⟨_, _, rfl⟩
-      · cases hh : c'.handleError x'.toErr with
+      · cases hh : c'.handleError (asParseError x').toErr with
         | mk c2 r =>
-          have hc2 : c2 = (c'.handleError x'.toErr).1 := by rw [hh]
+          have hc2 : c2 = (c'.handleError (asParseError x').toErr).1 := by rw [hh]
           cases r with
-          | some y => left; exact ⟨y, rfl⟩
-          | none => right; rw [hc2]; exact handleError_ne_nil _ _ _
+          | some y =>
+            left
+            cases y with
+            | raw e0 => exact ⟨_, rfl⟩
+            | collected es => exact ⟨_, rfl⟩
+          | none => right; show c2.errors ≠ []; rw [hc2]; exact handleError_ne_nil _ _ _
 
 theorem allLoop_pres {rec : P} (hp : Pres rec) (c : Ctx) (v : Val) (ts : List Ty) :
     (allLoop rec c v ts).1.mode = c.mode ∧ (allLoop rec c v ts).1.o = c.o := by
@@ -560,17 +564,18 @@ theorem allLoop_pres {rec : P} (hp : Pres rec) (c : Ctx) (v : Val) (ts : List Ty
       rw [this.1, this.2]; exact h0
     · rename_i c1 e heq
       rw [heq] at h0
-      have hm := handleError_mode c1 e.toErr false
-      have ho := handleError_o c1 e.toErr false
-      split
-      · rename_i c2 x hh
+      have hm := handleError_mode c1 (asParseError e).toErr false
+      have ho := handleError_o c1 (asParseError e).toErr false
+      cases hh : c1.handleError (asParseError e).toErr with
+      | mk c2 r =>
         rw [hh] at hm ho
         simp only at hm ho
-        simp only [hm, ho]; exact h0
-      · rename_i c2 hh
-        rw [hh] at hm ho
-        simp only at hm ho
-        simp only [hm, ho]; exact h0
+        cases r with
+        | none => simp only [hm, ho]; exact h0
+        | some y =>
+          cases y with
+          | raw e0 => simp only [hm, ho]; exact h0
+          | collected es => simp only [hm, ho]; exact h0
 
 /-! ### `|` -/
 
